@@ -318,3 +318,39 @@ int vp_munmap(void *addr, size_t length)
 	return munmap(addr, length);
 }
 CAMLprim value vp_set_mmap_mode(value m) { vp_mmap_mode = Long_val(m); return Val_unit; }
+
+/* ---- CRC-32C: both implementations regardless of the host CPU ------------------- */
+uint32_t my_crc32c_slicing(const uint8_t *, size_t);
+#if __GNUC__ >= 3 && defined(__x86_64__)
+bool my_crc32c_sse42_supported(void);
+uint32_t my_crc32c_sse42(const uint8_t *, size_t);
+#endif
+/* which: 0 = mtbl_crc32c (dispatch), 1 = slicing, 2 = sse42.  The buffer is copied to an
+ * address with (addr mod 8) == align. */
+CAMLprim value vp_crc_impl(value which, value s, value align)
+{
+	CAMLparam3(which, s, align);
+	size_t n = caml_string_length(s);
+	uint8_t *raw = aligned_alloc(64, n + 128);
+	memset(raw, 0xEE, n + 128);
+	uint8_t *p = raw + 64 + Long_val(align);
+	memcpy(p, String_val(s), n);
+	uint32_t r = 0;
+	switch (Long_val(which)) {
+	case 0: r = mtbl_crc32c(p, n); break;
+	case 1: r = my_crc32c_slicing(p, n); break;
+#if __GNUC__ >= 3 && defined(__x86_64__)
+	case 2: r = my_crc32c_sse42(p, n); break;
+#endif
+	}
+	free(raw);
+	CAMLreturn(caml_copy_int64((int64_t)(uint64_t) r));
+}
+CAMLprim value vp_sse42_supported(value unit)
+{
+#if __GNUC__ >= 3 && defined(__x86_64__)
+	return Val_bool(my_crc32c_sse42_supported());
+#else
+	return Val_false;
+#endif
+}
